@@ -252,3 +252,64 @@ func Driver(name string, race bool) (string, error) {
 	}
 	return out, nil
 }
+
+// Tool builds a command overlaid into the grog module: harness/<name>/*.go as package main at
+// grog/internal/zzverif/<name>.
+func Tool(name string) (string, error) {
+	h, err := SourceHash()
+	if err != nil {
+		return "", err
+	}
+	dir := filepath.Join(CacheRoot(), h)
+	out := filepath.Join(dir, "tool-"+name)
+	if _, err := os.Stat(out); err == nil {
+		return out, nil
+	}
+	lf, err := lock()
+	if err != nil {
+		return "", err
+	}
+	defer lf.Close()
+	if _, err := os.Stat(out); err == nil {
+		return out, nil
+	}
+	if err := os.MkdirAll(dir, 0755); err != nil {
+		return "", err
+	}
+	gc(h)
+	src := filepath.Join(VerifDir(), "harness", name)
+	ents, err := os.ReadDir(src)
+	if err != nil {
+		return "", err
+	}
+	var sb strings.Builder
+	sb.WriteString("{\"Replace\":{")
+	first := true
+	for _, e := range ents {
+		if e.IsDir() || !strings.HasSuffix(e.Name(), ".go") {
+			continue
+		}
+		if !first {
+			sb.WriteString(",")
+		}
+		first = false
+		fmt.Fprintf(&sb, "%q:%q", filepath.Join(Repo(), "internal", "zzverif", name, e.Name()), filepath.Join(src, e.Name()))
+	}
+	sb.WriteString("}}")
+	ov := filepath.Join(dir, "overlay-"+name+".json")
+	if err := os.WriteFile(ov, []byte(sb.String()), 0644); err != nil {
+		return "", err
+	}
+	args := []string{"build", "-tags", "verif", "-overlay", ov, "-o", out + ".tmp", "grog/internal/zzverif/" + name}
+	cmd := exec.Command("go", args...)
+	cmd.Dir = Repo()
+	cmd.Env = goEnv()
+	b, err := cmd.CombinedOutput()
+	if err != nil {
+		return "", &BuildError{fmt.Sprintf("go %s failed: %v\n%s", strings.Join(args, " "), err, b)}
+	}
+	if err := os.Rename(out+".tmp", out); err != nil {
+		return "", err
+	}
+	return out, nil
+}
